@@ -122,14 +122,15 @@ def scenario(chk, kind):
 
         def f_orc(keys, kstates, sv):
             st = mkstate(sv)
-            moved, acc, kso = [], [], []
+            moved, acc, kso, steps = [], [], [], [valsof(st)]
             for i, k in enumerate(ks):
                 r = k.transition(keys[i], kstates[i], st, ep)
                 st = r.model_state
                 moved.append(jnp.asarray(r.info.position_moved))
                 acc.append(jnp.asarray(r.info.acceptance_prob, jnp.float32))
                 kso.append(r.kernel_state)
-            return dict(new=valsof(st), moved=moved, acc=acc, kst=kso)
+                steps.append(valsof(st))
+            return dict(new=valsof(st), moved=moved, acc=acc, kst=kso, steps=steps)
         f_seq, f_orc = K.with_stub(f_seq, rec), K.with_stub(f_orc, rec)
         key = jax.random.PRNGKey(9)
         okeys = jax.random.split(key, n)
@@ -218,6 +219,21 @@ def obligations(kind, e_seq, e_orc, ks, param_keys, s_free, has_derived):
         strong = [k for k in inp if (k in s_free) and k not in keys_touched]
         return pos, z3.And(*[all_eq(new[k], inp[k]) for k in strong]) if strong else z3.BoolVal(True)
     obs.append(Obligation(f"[{kind}] inputs that belong to no kernel's block (data, hyper-parameters, other parameters) are returned untouched", [e_seq], untouched, signature=f"{kind}:untouched"))
+    # each kernel on its own changes only the parameters named in its position keys (and what is derived from them)
+    def own_block(V):
+        steps = V.out["steps"]
+        goals = []
+        for i, k in enumerate(ks):
+            own = set()
+            for pk in k.position_keys:
+                own.add(pk)
+                own.add(pk + "_value")
+            for key in s_free:
+                if key not in own and key in steps[i]:
+                    goals.append(all_eq(steps[i + 1][key], steps[i][key]))
+        return pos, z3.And(*goals) if goals else z3.BoolVal(True)
+    obs.append(Obligation(f"[{kind}] every kernel leaves all input values outside its own position keys exactly as it found them (other kernels' blocks included)", [e_orc], own_block,
+                          signature=f"{kind}:own-block"))
     if has_derived:
         moved_terms = [cells(m)[0] for m in e_seq.out["moved"]]
         preds = [m for m in moved_terms if z3.is_expr(m) and not (z3.is_true(z3.simplify(m)) or z3.is_false(z3.simplify(m))) and not z3.is_int_value(z3.simplify(m))]
